@@ -201,6 +201,18 @@ pub fn run(ctx: &mut Ctx, out_path: &str, n: usize, seed: u64) {
             rp.push(if r.gen_bool(0.7) { format!("$.{}", p) } else { p });
         }
         f.issue(claims.clone(), Some(rp), 3, Fmt::Compact);
+        // unknown / mismatching algorithm names at issuance and for the key-binding JWT
+        for alg in ["FOO", "", "none", "HS256", "RS256", "es256"] {
+            let arg = format!("alg={}", alg);
+            f.begin("issuer.issue", &arg);
+            let c = claims.clone();
+            let (st, out) = Fz::st(catch_unwind(AssertUnwindSafe(|| {
+                let mut i = sd_jwt_rs::SDJWTIssuer::new(crate::keys::enc("K1"), Some(alg.to_string()));
+                i.issue_sd_jwt(c, Strategy::TopLevel, crate::keys::jwk("H1"), false, Fmt::Compact.lib())
+            })));
+            f.end("issuer.issue", "compact", &arg, st);
+            let _ = out;
+        }
         // ---- B: structural mutations of a valid SD-JWT and of its presentations
         let fmt = if r.gen_bool(0.5) { Fmt::Compact } else { Fmt::Json };
         let Some(issued) = f.issue(claims.clone(), None, 2, fmt) else { continue };
@@ -264,6 +276,12 @@ pub fn run(ctx: &mut Ctx, out_path: &str, n: usize, seed: u64) {
                 if let Some(p) = f.present(&mut h, fmt, &sel, false) {
                     last = Some(p);
                 }
+            }
+            for alg in ["FOO", "", "EdDSA", "HS256"] {
+                let arg = format!("kbalg={}", alg);
+                f.begin("holder.present", &arg);
+                let (st, _) = Fz::st(catch_unwind(AssertUnwindSafe(|| h.create_presentation(Map::new(), Some("n".into()), Some("a".into()), Some(crate::keys::enc("H1")), Some(alg.to_string())))));
+                f.end("holder.present", fmt.name(), &arg, st);
             }
             if let Some(p) = last {
                 if let Some(mut h2) = f.holder_new(&p, fmt) {
